@@ -47,6 +47,10 @@ def run(ctx):
             ctx.count("build_failed")
             continue
         mag = pools.magnitude(rng)
+        import math
+        if not all(orc.knows(u) for u in (a, b, c)) or max(orc.dynamic_range(u) for u in (a, b, c)) * 2 + abs(math.log10(abs(float(mag)) or 1)) + 6 > 280:
+            ctx.count("skipped_partial_products_may_leave_float_range")  # denormal intermediates lose bits: not a linearity question
+            continue
         shapes = (pools.shape_class(fa), pools.shape_class(fb), pools.shape_class(fc))
         case = {"a": pools.factors_term(fa), "b": pools.factors_term(fb), "c": pools.factors_term(fc), "mag": model.enc_mag(mag)}
         degree = orc.degree(a, b)
